@@ -535,6 +535,41 @@ where
                     _ => a.par_eq(b),
                 }) as i64];
             }
+            "serde_roundtrip" => {
+                let val = serde_json::to_value(self.tabs[t - 1].as_ref().unwrap()).expect("serialize");
+                let back: Set<K> = serde_json::from_value(val).expect("deserialize");
+                drop(self.tabs[ev.u - 1].take());
+                self.tabs[ev.u - 1] = Some(back);
+            }
+            "serde_de" | "serde_de_in_place" => {
+                let items: Vec<(u32, u32)> = ev.ks.iter().map(|c| (*c as u32, 0)).collect();
+                let hint = match ev.n {
+                    -1 => None,
+                    -2 => Some(usize::MAX),
+                    -3 => Some(1usize << 40),
+                    x => Some(x as usize),
+                };
+                let input = env::MockInput { items, pos: 0, hint, fail_at: if ev.j >= 0 { Some(ev.j as usize) } else { None }, pending_value: None };
+                if ev.op == "serde_de" {
+                    let res: Result<Set<K>, _> = serde::Deserialize::deserialize(env::MockDe(input, false));
+                    let maxal = env::with(|e| e.alloc_events.iter().filter(|a| a.0 == 1).map(|a| a.1).max().unwrap_or(0));
+                    match res {
+                        Ok(mut m) => {
+                            ev.r = vec![1, m.capacity() as i64, maxal as i64];
+                            m.shrink_to_fit();
+                            drop(self.tabs[t - 1].take());
+                            self.tabs[t - 1] = Some(m);
+                        }
+                        Err(_) => ev.r = vec![0, 0, maxal as i64],
+                    }
+                } else {
+                    let m = self.tabs[t - 1].as_mut().unwrap();
+                    let res = serde::Deserialize::deserialize_in_place(env::MockDe(input, false), m);
+                    let maxal = env::with(|e| e.alloc_events.iter().filter(|a| a.0 == 1).map(|a| a.1).max().unwrap_or(0));
+                    ev.r = vec![res.is_ok() as i64, m.capacity() as i64, maxal as i64];
+                    m.shrink_to_fit();
+                }
+            }
             other => panic!("unknown set op {}", other),
         }
     }
